@@ -65,6 +65,7 @@ fn cfg_for(kind: Kind, phase: &str, tier: Tier, index: u64) -> GenCfg {
             c.traits = index % 3 == 1;
         }
     }
+    c.discards = index % 2 == 0;
     // the package layout keeps traits and impls in the entry package; programs split over
     // packages are generated without them (C14/C16/C17 cover traits across packages)
     if phase == "multipkg" {
